@@ -29,7 +29,7 @@ VARIABLES l,
           ws03, ws12,           \* stream still well-structured and output in step with the parse
           fst, frest,           \* L1 framer state / remaining input (drift)
           insync,               \* L1 model still in step with the code
-          cnt, refaux, vrange,  \* C12: messages so far, derived fields of the uncorrupted stream's segments, victim byte range
+          cnt, refaux, vrange,  \* C12: typed messages so far, their derived fields in the stream without the victim, victim byte range
           bad                   \* [c01, c02, c03, c12, drift |-> sequences of event indices]
 
 vars == <<l, in, pos, closed, ws03, ws12, fst, frest, insync, cnt, refaux, vrange, bad>>
@@ -71,11 +71,13 @@ OnMsg(e) ==
         l1ok == r1[3] /\ ~r1[1].done /\ r1[1].out = << [type |-> e.type, raw |-> e.raw] >>
         \* C12: a segment outside the victim is delivered exactly as without the corruption - also the fields the
         \* handler derives for it (timestamp, times, error text); refaux is what the uncorrupted stream produced
+        \* refaux: what the typed messages get when the victim is not in the stream at all (a frame rejected for
+        \* its CRC must leave no trace in the handler); cnt counts the typed messages so far
         isVictim == pos < vrange[2] /\ pos + n > vrange[1]
-        auxok == refaux = <<>> \/ isVictim \/ cnt + 1 > Len(refaux) \/ e.aux = refaux[cnt + 1]
+        auxok == refaux = <<>> \/ isVictim \/ e.type < 0 \/ cnt + 1 > Len(refaux) \/ e.aux = refaux[cnt + 1]
     IN /\ bad' = Add(Add(Add(Add(Add(bad, "c01", c01ok), "c02", c02ok),
                          "c03", ~w03 \/ matches), "c12", ~w12 \/ (matches /\ auxok)), "drift", ~insync \/ l1ok)
-       /\ cnt' = cnt + 1 /\ UNCHANGED <<refaux, vrange>>
+       /\ cnt' = (IF e.type >= 0 THEN cnt + 1 ELSE cnt) /\ UNCHANGED <<refaux, vrange>>
        /\ pos' = IF c02ok THEN pos + n ELSE pos
        /\ ws03' = (w03 /\ matches) /\ ws12' = (w12 /\ matches)
        /\ insync' = (insync /\ l1ok)
